@@ -268,6 +268,15 @@ func init() {
 			}
 			return Scalar{And(Neq(iv.Tid, Int(0)), UF("implements_"+typeKey(ty), SBool, iv.Tid))}
 		},
+		// errorsis(err, target): what errors.Is(err, target) returns (same term as the model of errors.Is)
+		"errorsis": func(e *Env, args []ast.Expr) Value {
+			a, ok1 := e.eval(args[0]).(Iface)
+			b, ok2 := e.eval(args[1]).(Iface)
+			if !ok1 || !ok2 {
+				fail("spec: errorsis(err, target)")
+			}
+			return Scalar{errorsIs(e.st, a, b)}
+		},
 		// wrote_nothing(): no heap cell that existed at entry was written on any explored path so far
 		"wrote_nothing": func(e *Env, args []ast.Expr) Value {
 			var ks []string
